@@ -9,14 +9,49 @@ extern crate alloc;
 
 pub mod src;
 pub use src::*;
+pub mod util;
 
+pub mod c02;
+pub mod c03;
 pub mod c04;
+pub mod c05;
+pub mod c06;
+pub mod c07;
+pub mod c08;
+pub mod c09;
+pub mod c10;
+pub mod c11;
+pub mod c12;
+pub mod c13;
+pub mod c14;
+pub mod c15;
+pub mod c16;
+pub mod c17;
 pub mod c18;
+pub mod c19;
+pub mod c20;
 
 /// name -> replayable body, collected from every harness module
 pub fn table() -> alloc::vec::Vec<(&'static str, fn(&mut ReplaySrc), bool)> {
     let mut v = alloc::vec::Vec::new();
+    v.extend_from_slice(c02::TABLE);
+    v.extend_from_slice(c03::TABLE);
     v.extend_from_slice(c04::TABLE);
+    v.extend_from_slice(c05::TABLE);
+    v.extend_from_slice(c06::TABLE);
+    v.extend_from_slice(c07::TABLE);
+    v.extend_from_slice(c08::TABLE);
+    v.extend_from_slice(c09::TABLE);
+    v.extend_from_slice(c10::TABLE);
+    v.extend_from_slice(c11::TABLE);
+    v.extend_from_slice(c12::TABLE);
+    v.extend_from_slice(c13::TABLE);
+    v.extend_from_slice(c14::TABLE);
+    v.extend_from_slice(c15::TABLE);
+    v.extend_from_slice(c16::TABLE);
+    v.extend_from_slice(c17::TABLE);
     v.extend_from_slice(c18::TABLE);
+    v.extend_from_slice(c19::TABLE);
+    v.extend_from_slice(c20::TABLE);
     v
 }
